@@ -164,3 +164,38 @@ Proof.
   - apply (generic_index_reach l2 Hnp2) in E2. eapply Reach_perm in E2; [|intros x; apply Heq].
     apply (generic_index_reach l1 Hnp) in E2. congruence.
 Qed.
+
+(* ---------- C07: no escaped name is a Rust keyword ---------- *)
+
+Fixpoint ends_v (s : string) : bool :=
+  match s with
+  | String "_" (String "v" EmptyString) => true
+  | String _ r => ends_v r
+  | EmptyString => false
+  end.
+
+Lemma ends_v_app s : ends_v (s ++ "_v") = true.
+Proof.
+  induction s as [|c s IH]; [reflexivity|]. cbn [String.append ends_v].
+  destruct (s ++ "_v")%string as [|c2 r] eqn:E; [destruct s; discriminate|].
+  destruct c as [b0 b1 b2 b3 b4 b5 b6 b7]; destruct b0, b1, b2, b3, b4, b5, b6, b7; try exact IH.
+  destruct c2 as [d0 d1 d2 d3 d4 d5 d6 d7]; destruct d0, d1, d2, d3, d4, d5, d6, d7; try exact IH.
+  destruct r; [reflexivity|exact IH].
+Qed.
+
+Lemma keywords_not_v : forallb (fun k => negb (ends_v k)) rust_keywords = true.
+Proof. vm_compute. reflexivity. Qed.
+
+Lemma keywords_in_table : forallb (fun k => mem k safe_keywords) rust_keywords = true.
+Proof. vm_compute. reflexivity. Qed.
+
+(* the name a field, discriminant or label is printed under is never a Rust keyword -- except
+   the literals `true` / `false` that the TRUE / FALSE labels of a bool union are lower-cased to *)
+Theorem safe_name_not_keyword s : In (safe_name s) rust_keywords -> mem s safe_lowercase = true.
+Proof.
+  unfold safe_name. destruct (mem s safe_keywords) eqn:Ek.
+  - intros H. pose proof (proj1 (forallb_forall _ _) keywords_not_v _ H) as X. cbv beta in X.
+    rewrite ends_v_app in X. discriminate.
+  - destruct (mem s safe_lowercase); [reflexivity|].
+    intros H. pose proof (proj1 (forallb_forall _ _) keywords_in_table _ H) as X. cbv beta in X. congruence.
+Qed.
